@@ -49,10 +49,27 @@ static GLOBAL: CountingAlloc = CountingAlloc;
 fn main() {
     let argv: Vec<String> = std::env::args().collect();
     let args = Args::parse(&argv);
-    // panics inside ragc are caught and judged by the workloads; keep stderr readable
-    if args.get("loud") != Some("1") {
-        std::panic::set_hook(Box::new(|_| {}));
-    }
+    // Panics on named threads (the main thread and the harness's own threads) are caught and
+    // judged by the workloads. A panic on an unnamed thread is a ragc pipeline worker dying:
+    // nothing can catch it and the run it belongs to can never finish, so the message is kept
+    // for the stuck-state detector (c05child) or the process ends with a crash record.
+    let _ = rayon::ThreadPoolBuilder::new().thread_name(|i| format!("vh-rayon-{}", i)).build_global();
+    mon::set_crash_path(args.out.as_ref().map(|o| format!("{}.crash", o)));
+    let is_c05_child = args.workload == "c05child";
+    let loud = args.get("loud") == Some("1");
+    std::panic::set_hook(Box::new(move |info| {
+        let named = std::thread::current().name().is_some();
+        let msg = format!("{}", info);
+        if loud {
+            eprintln!("{}", msg);
+        }
+        if !named && mon::run_in_flight() {
+            mon::note_worker_panic(msg.clone());
+            if !is_c05_child {
+                mon::crash_exit("worker-panic", &msg, 101);
+            }
+        }
+    }));
     let mut rep = Report::new();
     let mut code = 0;
     match args.workload.as_str() {
